@@ -431,6 +431,8 @@ pub fn run(ctx: &Ctx) -> Report {
                 lists.push(c);
             }
         }
+        // long inputs: clauses with up to maxk literals and lists of up to maxk unit clauses
+        lists.extend(long_lists(ctx.tier.pick(9, 14)));
         let chunks: Vec<&[Vec<Clause>]> = lists.chunks(64).collect();
         let fam = par_run(ctx, &chunks, |_, chunk| {
             let mut r = Report::default();
